@@ -78,6 +78,11 @@ def child_rule(chk, db, rule_id):
                 n += 1
                 chk.saw(f)
                 ok = False
+                vparams = {p_["did"] for p_ in f.params() if "std::vector<int>" in p_["t"]}
+
+                def is_limit_entry(e, vparams=vparams):
+                    # an element of the vector<int> parameter of the routine (the limits), whatever it is called
+                    return any(z.get("k") == "DeclRefExpr" and z.get("did") in vparams for z in [strip(e)] + list(walk(e)))
                 for cnd, truth in cond_edges_dominating(f, c):
                     if not truth:
                         continue
@@ -89,7 +94,7 @@ def child_rule(chk, db, rule_id):
                         if r is None or r[1] not in ("<=", "<"):
                             continue
                         lv = strip(r[0])
-                        if lv is None or lv.get("k") not in ("CallExpr", "CXXMemberCallExpr") or (callee(lv) or "").rsplit("::", 1)[-1] != "getLevel" or "limits" not in txt(strip(r[2])):
+                        if lv is None or lv.get("k") not in ("CallExpr", "CXXMemberCallExpr") or (callee(lv) or "").rsplit("::", 1)[-1] != "getLevel" or not is_limit_entry(r[2]):
                             continue
                         arg = strip(call_args(lv)[0])
                         same = arg is not None and (txt(arg) == lhs_txt or (val is not None and val.get("k") == "DeclRefExpr" and arg.get("k") == "DeclRefExpr" and arg.get("did") == val.get("did")))
